@@ -1,312 +1,57 @@
 """C17 -- text-interface solver: legal command stream, replies in sync, faithful model."""
-import ast
-
-from ..common import (get_repo, short, norm, CFG, normal_only, method_loc, calls_in, attr_tail,
-                      is_self_attr, parents, names_in)
+from ..common import get_repo
 
 TS = "pysmt.smtlib.solver.SmtLibSolver"
-FRAMES = ("declared_vars", "declared_sorts")
 
 EXPLANATION = (
-    "Static analysis of pysmt/smtlib/solver.py: a method that forwards `levels` to the solver does "
-    "its per-level declaration-frame bookkeeping `levels` times (R1); reads of the declaration "
-    "frames range over all frames, [-1] is used only to insert (R2); reset_assertions restores the "
-    "initial frames (R3); add_assertion declares sorts, then symbols, then asserts, and a "
-    "declaration is recorded only after it was acknowledged (R4); every _send_command is followed "
-    "on every path by exactly one reply read (R5); the verdict table sat/unsat/unknown/other (R6); "
-    "get_model stores exactly the value returned by get_value for the symbol queried (R7).")
-NOT_DECIDED = ["legality of arbitrary histories as a whole; that the model satisfies the assertions"]
+    "Abstract interpretation of pysmt/smtlib/solver.py (with the Solver base class, the clear_pending_pop "
+    "decorator, SmtLibCommand.serialize, the let-DAG printer and the interactive parser used for value "
+    "replies): the solver process is replaced by a reference SMT-LIB solver written on the analysis side - it "
+    "reads the command stream with the independent reader (sa/refsmt.py), checks every command against its "
+    "assertion-stack state (declared before use, declared once while in scope, pops within the stack) and "
+    "answers success / sat / value lists.  For every legal sequence of API calls up to a bounded length over "
+    "assert (three formulas, one over an uninterpreted sort) | push 0/1/2 | pop 0/1/2 | reset_assertions | "
+    "solve | is_sat | get_model | get_value the interpreted SmtLibSolver is run against it: the stream must "
+    "be legal, no reply may stay unread and none may be awaited that no command causes, the solver's level "
+    "must mirror the caller's, the verdict must be the one given, and the model must assign every symbol of "
+    "the live assertions the value the solver reported (R8).  Verdict table: sat / unsat / unknown / anything "
+    "else, for solve and is_sat (R6).")
+NOT_DECIDED = ["API sequences longer than the bound (3 calls in the quick tier, 4 in the thorough tier)",
+               "the factory shortcuts of pysmt/factory.py beyond Solver.is_sat (they construct real solver processes)"]
 
 
 def run(ctx):
     repo = get_repo()
-    ci = repo.cls(TS)
-    ctx.analysed["modules"] = ["pysmt/smtlib/solver.py"]
-    ctx.analysed["methods"] = [n for n in ci.order if ci.own_func(n) is not None]
+    ctx.analysed["modules"] = ["pysmt/smtlib/solver.py", "pysmt/solvers/solver.py", "pysmt/decorators.py",
+                               "pysmt/smtlib/script.py", "pysmt/smtlib/printers.py", "pysmt/smtlib/parser/parser.py"]
+    from . import solver_deep as sd
 
-    def frame_ops(f):
-        """(stmt, frame attr, op) for statements that push/pop a declaration frame"""
-        out = []
-        for n in ast.walk(f):
-            if isinstance(n, ast.Call) and isinstance(n.func, ast.Attribute) and n.func.attr in ("append", "pop") \
-                    and is_self_attr(n.func.value) and n.func.value.attr in FRAMES:
-                out.append((n, n.func.value.attr, n.func.attr))
-        return out
-
-    if ctx.want("R1"):
-        rs = ctx.rule("R1", "level mirroring: per-level bookkeeping runs `levels` times")
-        for nm in ("push", "pop"):
-            f = ci.own_func(nm)
-            if f is None:
-                ctx.error("R1", "%s.%s vanished" % (TS, nm))
-                continue
-            params = [a.arg for a in f.args.args]
-            if "levels" not in params:
-                rs.unrec("%s has no levels parameter" % nm)
-                continue
-            sends = [c for c in calls_in(f) if attr_tail(c) in ("_send_silent_command", "_send_command")]
-            forwards = any("levels" in names_in(c) for c in sends)
-            par = parents(f)
-            ops = frame_ops(f)
-            # `del frames[-levels:]` / `frames[-levels]`: for levels == 0 (a legal `(pop 0)`) the index -0 is 0
-            negs = [n for n in ast.walk(f) if isinstance(n, ast.Subscript) and is_self_attr(n.value) and n.value.attr in FRAMES
-                    and ((isinstance(n.slice, ast.Slice) and n.slice.lower is not None and norm(n.slice.lower) == "-levels")
-                         or norm(n.slice) == "-levels")]
-            for n in negs:
-                ctx.finding(rs, "%s.%s|negative-zero-index|%s" % (TS, nm, n.value.attr),
-                            "%s uses %s: for levels == 0 the index -0 denotes the whole list, so (%s 0) drops every "
-                            "declaration frame" % (nm, norm(n), nm), method_loc(repo, TS, n))
-            if negs:
-                continue
-            if not ops:
-                rs.unrec("%s: no declaration-frame bookkeeping found" % nm)
-                continue
-            for call, attr, op in ops:
-                p = call
-                in_loop = False
-                while p in par:
-                    p = par[p]
-                    if isinstance(p, ast.For) and norm(p.iter) == "range(levels)":
-                        in_loop = True
-                    if isinstance(p, ast.While) and "levels" in names_in(p.test):
-                        in_loop = True
-                if in_loop or not forwards:
-                    rs.ok({"method": nm, "frame": attr, "op": op, "per_level": True})
-                else:
-                    ctx.finding(rs, "%s.%s|one-frame-per-call|%s" % (TS, nm, attr),
-                                "%s(levels) sends `(%s levels)` to the solver but %ss a single frame of %s: after "
-                                "%s(2) the mirror is one frame short/long and later pops fail or leak declarations"
-                                % (nm, nm, op, attr, nm), method_loc(repo, TS, call))
-            want = "append" if nm == "push" else "pop"
-            for attr in FRAMES:
-                if not any(a == attr and o == want for _, a, o in ops):
-                    ctx.finding(rs, "%s.%s|frame-not-mirrored|%s" % (TS, nm, attr),
-                                "%s does not %s a frame of %s" % (nm, want, attr), method_loc(repo, TS, f))
-        ctx.floor(rs, 4)
-
-    if ctx.want("R2"):
-        rs = ctx.rule("R2", "declaration frames: reads consult all frames, [-1] only inserts")
-        for nm in ci.order:
-            f = ci.own_func(nm)
-            if f is None:
-                continue
-            par = parents(f)
-            for n in ast.walk(f):
-                if isinstance(n, ast.Subscript) and is_self_attr(n.value) and n.value.attr in FRAMES and \
-                        norm(n.slice) == "-1":
-                    p = par.get(n)
-                    # insertion: self.declared_x[-1].add(...)
-                    if isinstance(p, ast.Attribute) and p.attr in ("add", "update") and isinstance(par.get(p), ast.Call):
-                        rs.ok({"method": nm, "use": norm(par[p]), "kind": "insert into top frame"})
-                    else:
-                        ctx.finding(rs, "%s.%s|top-frame-read|%s" % (TS, nm, n.value.attr),
-                                    "%s reads only the top frame %s: symbols declared before the last push are "
-                                    "ignored (e.g. a model built after push() loses them)" % (nm, norm(n)),
-                                    method_loc(repo, TS, n))
-        # membership tests over all frames in add_assertion
-        f = ci.own_func("add_assertion")
-        if f is not None:
-            alls = [c for c in calls_in(f) if isinstance(c.func, ast.Name) and c.func.id in ("all", "any")]
-            for c in alls:
-                txt = norm(c)
-                for attr in FRAMES:
-                    if "self.%s" % attr in txt and "[-1]" not in txt:
-                        rs.ok({"method": "add_assertion", "membership": txt})
-        ctx.floor(rs, 3)
-
-    if ctx.want("R3"):
-        rs = ctx.rule("R3", "reset_assertions restores the initial declaration frames")
-        f = ci.own_func("reset_assertions")
-        init = ci.own_func("__init__")
-        if f is None or init is None:
-            ctx.error("R3", "reset_assertions/__init__ vanished")
-        else:
-            for attr in FRAMES:
-                st = [n for n in ast.walk(f) if isinstance(n, ast.Assign) and is_self_attr(n.targets[0], attr)]
-                clr = [c for c in calls_in(f) if isinstance(c.func, ast.Attribute) and is_self_attr(c.func.value, attr)
-                       and c.func.attr in ("clear",)]
-                st0 = [n for n in ast.walk(init) if isinstance(n, ast.Assign) and is_self_attr(n.targets[0], attr)]
-                if st and st0 and norm(st[0].value) == norm(st0[0].value):
-                    rs.ok({"frame": attr, "reset_to": norm(st[0].value)})
-                elif st or clr:
-                    rs.unrec("reset_assertions resets %s in an unrecognised way" % attr)
-                else:
-                    ctx.finding(rs, "%s.reset_assertions|frames-kept|%s" % (TS, attr),
-                                "reset_assertions sends (reset-assertions) - which also removes every declaration and "
-                                "every pushed level in the solver - but keeps %s: symbols are never re-declared and the "
-                                "next assert uses undeclared symbols; pushed frames stay in the mirror" % attr,
-                                method_loc(repo, TS, f))
-        ctx.floor(rs, 2)
-
-    if ctx.want("R4"):
-        rs = ctx.rule("R4", "declare sorts, then symbols, then assert; record after acknowledgement")
-        f = ci.own_func("add_assertion")
-        if f is None:
-            ctx.error("R4", "add_assertion vanished")
-        else:
-            cfg = CFG(f)
-            def has(n, name):
-                return n.ast is not None and any(attr_tail(c) == name for c in calls_in(
-                    n.ast.iter if isinstance(n.ast, ast.For) else n.ast)) and n.kind in ("stmt",)
-            ds = [n for n in cfg.nodes if has(n, "_declare_sort")]
-            dv = [n for n in cfg.nodes if has(n, "_declare_variable")]
-            asr = [n for n in cfg.nodes if n.ast is not None and n.kind == "stmt" and "ASSERT" in norm(n.ast)
-                   and any(attr_tail(c) == "_send_silent_command" for c in calls_in(n.ast))]
-            if not (ds and dv and asr):
-                rs.unrec("add_assertion: declare/assert statements not recognised")
+    if ctx.want("R8"):
+        rs = ctx.rule("R8", "API sequences against the reference solver process: legal stream, replies in sync, levels mirrored, faithful model")
+        res = sd.text_solver_results(repo, ctx.tier)
+        ctx.analysed["api_sequences"] = len(res)
+        for seq, kind, problems, ncmd in res:
+            name = " ; ".join(sd.T_NAMES[x] for x in seq)
+            if kind == "ok":
+                rs.ok({"sequence": name, "commands_sent": ncmd})
+            elif kind == "unsupported":
+                rs.unrec("%s: %s" % (name, problems[0][:160]))
             else:
-                a = asr[0]
-                # no path from assert back to a declaration; no path from a var declaration to a sort declaration
-                r_a = cfg.reachable(a.id, follow=normal_only)
-                if any(x.id in r_a for x in ds + dv):
-                    ctx.finding(rs, "%s.add_assertion|declare-after-assert" % TS,
-                                "a declaration can follow the assert command", method_loc(repo, TS, a.ast))
-                else:
-                    rs.ok({"order": "declarations precede the assert"})
-                r_v = set()
-                for v in dv:
-                    r_v |= cfg.reachable(v.id, follow=normal_only)
-                if any(x.id in r_v for x in ds):
-                    ctx.finding(rs, "%s.add_assertion|sort-after-symbol" % TS,
-                                "a sort can be declared after a symbol that may use it", method_loc(repo, TS, ds[0].ast))
-                else:
-                    rs.ok({"order": "sorts precede symbols"})
-            # the asserted formula is the one whose symbols were declared
-            sends = [c for c in calls_in(f) if attr_tail(c) == "SmtLibCommand" and "ASSERT" in norm(c)]
-            if sends:
-                arg = norm(sends[0].args[1]) if len(sends[0].args) > 1 else ""
-                deps = [n for n in ast.walk(f) if isinstance(n, ast.Assign) and isinstance(n.value, ast.Call)
-                        and attr_tail(n.value) == "get_free_variables"]
-                if deps and arg == "[%s]" % norm(deps[0].value.func.value):
-                    rs.ok({"asserted": arg, "declared_for": norm(deps[0].value)})
-                else:
-                    rs.unrec("asserted term %s vs declared-for %s" % (arg, [norm(d.value) for d in deps]))
-        for nm, attr in (("_declare_variable", "declared_vars"), ("_declare_sort", "declared_sorts")):
-            g = ci.own_func(nm)
-            if g is None:
-                ctx.error("R4", "%s vanished" % nm)
-                continue
-            cfg = CFG(g)
-            send = [n for n in cfg.nodes if n.ast is not None and n.kind == "stmt" and any(attr_tail(c) == "_send_silent_command" for c in calls_in(n.ast))]
-            rec = [n for n in cfg.nodes if n.ast is not None and n.kind == "stmt" and "self.%s" % attr in norm(n.ast) and ".add(" in norm(n.ast)]
-            if send and rec and cfg.dominated_by(rec[0].id, lambda n: n.id == send[0].id):
-                rs.ok({"method": nm, "record": "after acknowledgement"})
-            elif send and rec:
-                ctx.finding(rs, "%s.%s|record-before-ack" % (TS, nm),
-                            "%s records the declaration before the solver acknowledged it: if the command fails the "
-                            "symbol is never declared again" % nm, method_loc(repo, TS, rec[0].ast))
-            else:
-                rs.unrec("%s: send/record not recognised" % nm)
-        ctx.floor(rs, 4)
-
-    if ctx.want("R5"):
-        rs = ctx.rule("R5", "one reply read per command sent")
-        READS = ("_get_answer", "_get_value_answer", "_check_success")
-        for nm in ci.order:
-            f = ci.own_func(nm)
-            if f is None:
-                continue
-            if not any(attr_tail(c) == "_send_command" for c in calls_in(f)):
-                continue
-            cfg = CFG(f)
-            sends = [n for n in cfg.nodes if n.ast is not None and n.kind == "stmt" and any(attr_tail(c) == "_send_command" for c in calls_in(n.ast))]
-            isread = lambda n: n.ast is not None and n.kind == "stmt" and any(attr_tail(c) in READS for c in calls_in(n.ast))
-            for s in sends:
-                if "EXIT" in norm(s.ast):
-                    rs.ok({"method": nm, "command": "exit", "reply": "none expected"})
-                    continue
-                if cfg.must_pass(s.id, cfg.ret.id, isread, follow=normal_only):
-                    # exactly one: after the first read no second read before return
-                    reads = [n for n in cfg.nodes if isread(n) and n.id in cfg.reachable(s.id, follow=normal_only)]
-                    double = any(any(isread(cfg.nodes[i]) and i != r.id for i in cfg.reachable(r.id, follow=normal_only)) for r in reads)
-                    if double:
-                        ctx.finding(rs, "%s.%s|two-reads" % (TS, nm),
-                                    "%s reads two replies for one command: the next command's reply is consumed"
-                                    % nm, method_loc(repo, TS, s.ast))
-                    else:
-                        rs.ok({"method": nm, "send": short(s.ast), "reads": [short(r.ast, 40) for r in reads]})
-                else:
-                    ctx.finding(rs, "%s.%s|reply-not-read" % (TS, nm),
-                                "%s sends a command and can return without reading its reply: every later reply is "
-                                "attributed to the wrong command" % nm, method_loc(repo, TS, s.ast))
-        # silent commands: sent through _send_silent_command everywhere else
-        ctx.floor(rs, 3)
+                ctx.finding(rs, "seq|%s" % name, "after [%s]: %s" % (name, problems[0]), "pysmt/smtlib/solver.py")
+        ctx.floor(rs, 300)
 
     if ctx.want("R6"):
-        rs = ctx.rule("R6", "verdict table sat / unsat / unknown / other")
-        f = ci.own_func("solve")
-        table = {}
-        other = None
-        if f is None:
-            ctx.error("R6", "solve vanished")
-        else:
-            for n in ast.walk(f):
-                if isinstance(n, ast.If) and isinstance(n.test, ast.Compare) and len(n.test.ops) == 1 and \
-                        isinstance(n.test.ops[0], ast.Eq) and isinstance(n.test.comparators[0], ast.Constant):
-                    lit = n.test.comparators[0].value
-                    b = n.body[0]
-                    if isinstance(b, ast.Return):
-                        table[lit] = norm(b.value)
-                    elif isinstance(b, ast.Raise):
-                        table[lit] = "raise " + norm(b.exc).split("(")[0]
-                    if n.orelse and not isinstance(n.orelse[0], ast.If):
-                        o = n.orelse[0]
-                        other = ("raise " + norm(o.exc).split("(")[0]) if isinstance(o, ast.Raise) else norm(o)
-            want = {"sat": "True", "unsat": "False", "unknown": "raise SolverReturnedUnknownResultError"}
-            for k, v in want.items():
-                if table.get(k) == v:
-                    rs.ok({"answer": k, "outcome": v})
-                elif k in table:
-                    ctx.finding(rs, "%s.solve|verdict|%s" % (TS, k),
-                                "solver answer '%s' is turned into %s (expected %s)" % (k, table[k], v),
-                                method_loc(repo, TS, f))
-                else:
-                    rs.unrec("no branch for answer '%s'" % k)
-            if other and other.startswith("raise"):
-                rs.ok({"answer": "<other>", "outcome": other})
+        rs = ctx.rule("R6", "verdict table: sat / unsat / unknown / other, for solve and is_sat")
+        for ans, api, want, got in sd._verdict_job(None):
+            if got.startswith("unsupported"):
+                rs.unrec(got)
+            elif got == "does-not-terminate":
+                ctx.finding(rs, "verdict|%s|eof-loop" % api,
+                            "%s(): when the solver process ends without answering, the reply read never terminates "
+                            "(end-of-file is read again and again)" % api, "pysmt/smtlib/solver.py")
+            elif got == want:
+                rs.ok({"answer": ans, "call": api, "outcome": got})
             else:
-                ctx.finding(rs, "%s.solve|verdict|other" % TS,
-                            "an unrecognised solver answer does not raise (%s)" % other, method_loc(repo, TS, f))
-        ctx.floor(rs, 4)
-
-    if ctx.want("R7"):
-        rs = ctx.rule("R7", "get_model stores the value the solver reported for the symbol queried")
-        f = ci.own_func("get_model")
-        if f is None:
-            ctx.error("R7", "get_model vanished")
-        else:
-            # model entry: <map>[k] = v  with  v = self.get_value(q): k and q must be the same term
-            good = False
-            asg = [n for n in ast.walk(f) if isinstance(n, ast.Assign) and isinstance(n.targets[0], ast.Subscript)]
-            gv = {}
-            for n in ast.walk(f):
-                if isinstance(n, ast.Assign) and isinstance(n.value, ast.Call) and attr_tail(n.value) == "get_value" \
-                        and isinstance(n.targets[0], ast.Name) and n.value.args:
-                    gv[n.targets[0].id] = n.value
-            for a in asg:
-                k = norm(a.targets[0].slice)
-                v = a.value
-                call = v if (isinstance(v, ast.Call) and attr_tail(v) == "get_value") else gv.get(norm(v))
-                if call is None:
-                    continue
-                good = True
-                q = norm(call.args[0])
-                if k == q:
-                    rs.ok({"store": norm(a), "query": norm(call)})
-                else:
-                    ctx.finding(rs, "%s.get_model|store-mismatch" % TS,
-                                "model entry for %s is the value the solver reported for %s" % (k, q),
-                                method_loc(repo, TS, a))
-            if not good:
-                rs.unrec("get_model: value query / store not recognised")
-            rets = [n for n in ast.walk(f) if isinstance(n, ast.Return)]
-            if rets and "EagerModel" in norm(rets[0].value) and "assignment" in norm(rets[0].value):
-                rs.ok({"returns": short(rets[0].value)})
-        gvf = ci.own_func("get_value")
-        if gvf is not None:
-            rets = [n for n in ast.walk(gvf) if isinstance(n, ast.Return)]
-            if rets and norm(rets[0].value) == "lst[0][1]":
-                rs.ok({"get_value": "returns the value component of the single reply pair"})
-            else:
-                rs.unrec("get_value return: %s" % [norm(r.value) for r in rets])
-        ctx.floor(rs, 2)
+                ctx.finding(rs, "verdict|%s|%s" % (api, ans), "%s() on the answer %r gives %s, expected %s" % (api, ans, got, want),
+                            "pysmt/smtlib/solver.py")
+        ctx.floor(rs, 10)
